@@ -74,6 +74,38 @@ int main(int argc, char **argv)
 				s = e; /* resync so that one defect does not flood */
 			}
 		}
+	} else if (argc >= 4 && !strcmp(argv[1], "mixwalk")) {
+		/* history: one running time stepped by a generated sequence of deltas (0, 1, small, multiframe-sized, huge),
+		 * generator = xorshift seeded from the command line; start frames near the carry points */
+		uint64_t x = strtoull(argv[2], 0, 10) * 0x9E3779B97F4A7C15ull + 1;
+		unsigned long n = strtoul(argv[3], 0, 10);
+		static const uint32_t starts[] = { 0, 25, 50, 1325, 1326 * 2047u + 1300, HYPER - 3, HYPER - 1, 123456 };
+		for (unsigned si = 0; si < sizeof(starts) / sizeof(starts[0]); si++) {
+			struct gsm_time s, e;
+			uint32_t fn = starts[si];
+			ref(fn, &s);
+			for (unsigned long k = 0; k < n; k++) {
+				x ^= x << 13; x ^= x >> 7; x ^= x << 17;
+				uint32_t r = (uint32_t)(x >> 20), d;
+				switch (r & 7) {
+				case 0: d = 0; break;
+				case 1: case 2: case 3: d = 1; break;
+				case 4: d = 2 + (r >> 3) % 59; break;
+				case 5: d = 1326 - 3 + (r >> 3) % 6; break;
+				case 6: d = (r >> 3) % HYPER; break;
+				default: d = HYPER - 1 - (r >> 3) % 60; break;
+				}
+				uint32_t before = fn;
+				l1s_time_inc(&s, d);
+				fn = (fn + d) % HYPER;
+				ref(fn, &e);
+				n_eval++;
+				if (!same(&s, &e)) {
+					bad("mixwalk", before, d, &s, &e);
+					s = e;
+				}
+			}
+		}
 	} else if (argc >= 3 && !strcmp(argv[1], "dump")) {
 		FILE *f = fopen(argv[2], "wb");
 		if (!f) return 3;
